@@ -25,6 +25,8 @@ type Found struct {
 	ShrinkRuns int             `json:"shrink_executions"`
 	TreeFP     string          `json:"tree_fingerprint"`
 	Tool       string          `json:"tool"`
+	Note       string          `json:"note,omitempty"`
+	NSched     int             `json:"schedules,omitempty"`
 }
 
 // WorkerResult is what one worker process reports to the parent.
@@ -117,6 +119,14 @@ func Shrink(p Property, c Case, want Violation, schedRoot uint64, nsched int, bu
 		v, ok := sameViolation(vs, want)
 		return v, ctx, ok
 	}
+	// the case failed under these seeds a moment ago, in this process. If it does not
+	// fail again now, the code under test keeps state per process (a cache filled by
+	// the first execution, say): nothing can be shrunk here. The case is reported as
+	// found, without a schedule; the parent has it re-executed and its schedule
+	// recorded in a fresh process (cmd/sim replay -rewrite).
+	if _, _, ok := try(c, -1, nil); !ok {
+		return c, want, nil, nil, used
+	}
 	for used < budget {
 		improved := false
 		for _, cand := range p.Shrink(cur) {
@@ -138,8 +148,8 @@ func Shrink(p Property, c Case, want Violation, schedRoot uint64, nsched int, bu
 	}
 	v, ctx, ok := try(cur, -1, nil)
 	if !ok {
-		// cannot happen: the case failed under these seeds a moment ago
-		panic(&simrt.Infra{Msg: "shrink: violation vanished on identical re-run (nondeterminism in harness?)"})
+		// state kept per process interfered half-way: report the unshrunk case
+		return c, want, nil, nil, used
 	}
 	curV = v
 	traces, hashes := ctx.Traces, ctx.Hashes
@@ -261,11 +271,15 @@ func Worker(p Property, tier string, root, lo, hi, stride uint64, deadline time.
 			shrunkPerKey[k]++
 			sc, sv, traces, hashes, used := Shrink(p, c, v, schedRoot, plan.Schedules, 900)
 			sv.Shape = p.Shape(sc, sv)
-			res.Found = append(res.Found, Found{
+			fd := Found{
 				Property: p.ID(), Violation: sv, Case: mustJSON(sc), Traces: traces, LogHashes: hashes,
 				Seed: root, RunIndex: idx, OrigCase: mustJSON(c), ShrinkRuns: used, TreeFP: treeFP,
-				Tool: "verif sim harness",
-			})
+				Tool: "verif sim harness", NSched: plan.Schedules,
+			}
+			if traces == nil {
+				fd.Note = "did not recur on an identical re-run within the worker process (state kept per process): not shrunk; schedule = the seeded one of this run index, to be recorded in a fresh process"
+			}
+			res.Found = append(res.Found, fd)
 		}
 	}
 	res.Counters = st.C
@@ -293,20 +307,49 @@ func Worker(p Property, tier string, root, lo, hi, stride uint64, deadline time.
 
 // Replay re-executes a Found in this process. strict: traces must fit exactly.
 func Replay(p Property, f Found, strict bool, verbose bool) (reproduced bool, got []Violation, hashes []string, texts [][]string, infra string) {
+	reproduced, got, hashes, texts, _, infra = ReplayTraces(p, f, strict, verbose)
+	return
+}
+
+// ReplayTraces is Replay that also returns the schedule traces this execution recorded.
+func ReplayTraces(p Property, f Found, strict bool, verbose bool) (reproduced bool, got []Violation, hashes []string, texts [][]string, traces [][]simrt.Ev, infra string) {
 	c, err := p.Decode(f.Case)
 	if err != nil {
-		return false, nil, nil, nil, "decode: " + err.Error()
+		return false, nil, nil, nil, nil, "decode: " + err.Error()
 	}
 	ctx := newCtx(NewStats(), 0, len(f.Traces))
 	ctx.replay = f.Traces
 	ctx.lenient = !strict
 	ctx.Verbose = verbose
+	ctx.Record = true
+	vs, infra := runCase(p, c, ctx)
+	if infra != "" {
+		return false, nil, nil, nil, nil, infra
+	}
+	_, ok := sameViolation(vs, f.Violation)
+	return ok, vs, ctx.Hashes, ctx.Texts, ctx.Traces, ""
+}
+
+// ReplaySeeded re-executes the case of a Found under the seeded schedules of its run
+// index (exactly what the worker did), recording the traces: for Founds that carry
+// no schedule of their own.
+func ReplaySeeded(p Property, f Found) (reproduced bool, got []Violation, hashes []string, traces [][]simrt.Ev, infra string) {
+	c, err := p.Decode(f.Case)
+	if err != nil {
+		return false, nil, nil, nil, "decode: " + err.Error()
+	}
+	n := f.NSched
+	if n <= 0 {
+		n = 4
+	}
+	ctx := newCtx(NewStats(), Mix64(f.Seed, f.RunIndex), n)
+	ctx.Record = true
 	vs, infra := runCase(p, c, ctx)
 	if infra != "" {
 		return false, nil, nil, nil, infra
 	}
 	_, ok := sameViolation(vs, f.Violation)
-	return ok, vs, ctx.Hashes, ctx.Texts, ""
+	return ok, vs, ctx.Hashes, ctx.Traces, ""
 }
 
 // ReplayFresh re-executes the case of a Found under nsched fresh PRNG schedules
